@@ -62,6 +62,8 @@ type Handler struct {
 	OnRecvRTP func(sess int, mediaIdx int, forma format.Format, pkt *rtp.Packet)
 	// Forward received packets into the record stream
 	Forward bool
+	// OnForwardErr is told when the stream refuses a forwarded packet (the error the writer sees)
+	OnForwardErr func(mediaIdx int, pkt *rtp.Packet, err error)
 }
 
 func (h *Handler) connID(c *gortsplib.ServerConn) int {
@@ -104,6 +106,17 @@ func (h *Handler) Events() []Ev {
 	h.mu.Lock()
 	defer h.mu.Unlock()
 	return append([]Ev(nil), h.events...)
+}
+
+func (h *Handler) hasEvent(kind string) bool {
+	h.mu.Lock()
+	defer h.mu.Unlock()
+	for _, e := range h.events {
+		if e.Kind == kind {
+			return true
+		}
+	}
+	return false
 }
 
 // Session returns the session with the recorder's id.
@@ -237,7 +250,9 @@ func (h *Handler) OnRecord(ctx *gortsplib.ServerHandlerOnRecordCtx) (*base.Respo
 			h.OnRecvRTP(sid, idx, f, pkt)
 		}
 		if h.Forward && rs != nil {
-			_ = rs.WritePacketRTP(m, pkt)
+			if err := rs.WritePacketRTP(m, pkt); err != nil && h.OnForwardErr != nil {
+				h.OnForwardErr(idx, pkt, err)
+			}
 		}
 	})
 	return &base.Response{StatusCode: base.StatusOK}, nil
@@ -251,6 +266,18 @@ func (h *Handler) OnPause(ctx *gortsplib.ServerHandlerOnPauseCtx) (*base.Respons
 func (h *Handler) OnGetParameter(ctx *gortsplib.ServerHandlerOnGetParameterCtx) (*base.Response, error) {
 	h.rec("getparam", ctx.Conn, ctx.Session, ctx.Path, ctx.Query, -1, nil)
 	return &base.Response{StatusCode: base.StatusOK}, nil
+}
+
+func (h *Handler) OnStreamWriteError(ctx *gortsplib.ServerHandlerOnStreamWriteErrorCtx) {
+	h.rec("writeerr", nil, ctx.Session, "", "", -1, ctx.Error)
+}
+
+func (h *Handler) OnDecodeError(ctx *gortsplib.ServerHandlerOnDecodeErrorCtx) {
+	h.rec("decodeerr", nil, ctx.Session, "", "", -1, ctx.Error)
+}
+
+func (h *Handler) OnPacketsLost(ctx *gortsplib.ServerHandlerOnPacketsLostCtx) {
+	h.rec("lost", nil, ctx.Session, "", "", int(ctx.Lost), nil)
 }
 
 func (h *Handler) OnSetParameter(ctx *gortsplib.ServerHandlerOnSetParameterCtx) (*base.Response, error) {
